@@ -60,6 +60,8 @@ pub struct Report {
     pub sets: BTreeMap<String, BTreeSet<String>>,
     pub max_fails: u64,
     pub verbose: bool,
+    /// CPU seconds a single case may burn before the watchdog kills the worker
+    pub case_cpu_s: u64,
 }
 
 impl Report {
@@ -81,6 +83,7 @@ impl Report {
             sets: BTreeMap::new(),
             max_fails: 12,
             verbose: args.only.is_some(),
+            case_cpu_s: 30,
         }
     }
 
@@ -95,6 +98,7 @@ impl Report {
     pub fn begin(&mut self, case_id: &str) {
         self.evals += 1;
         if self.journal {
+            crate::cpu::arm_case_limit(self.case_cpu_s);
             let v = json!({"t":"begin","case":case_id});
             self.line(&v);
         }
@@ -103,6 +107,7 @@ impl Report {
     pub fn begin_with(&mut self, case_id: &str, replay: &Value) {
         self.evals += 1;
         if self.journal {
+            crate::cpu::arm_case_limit(self.case_cpu_s);
             let v = json!({"t":"begin","case":case_id,"replay":replay});
             self.line(&v);
         }
